@@ -479,6 +479,32 @@ impl Model {
         (di, ds, ok_int, undecided_int, ok_size)
     }
 
+    /// The entry a successful keyed write with this spec creates (declarations assumed to match).
+    pub fn expected_entry(ctx: &Ctx, s: &WriteSpec, t0: u128, t1: u128) -> Entry {
+        let data = ctx.blob(s.blob);
+        let opts = s.entry == WEntry::Opts;
+        let algo = if matches!(s.entry, WEntry::OneShot | WEntry::Create) { Algo::Sha256 } else { s.algo };
+        let di = if opts { declared_integrity(s.integ, algo, &data).map(|x| blob::sri_canon(&x).unwrap()) } else { None };
+        let ds = if opts { declared_size(s.declare, data.len()) } else { None };
+        Entry {
+            integrity: di.unwrap_or_else(|| blob::sri(algo, &data)),
+            size: ds.unwrap_or(data.len()) as u64,
+            time: match (opts, s.time_u128()) {
+                (true, Some(t)) => TimeSpec::Exact(t),
+                _ => TimeSpec::Window(t0, t1),
+            },
+            metadata: if opts { s.metadata.clone().unwrap_or(Value::Null) } else { Value::Null },
+            raw_metadata: if opts { s.raw_metadata.clone() } else { None },
+        }
+    }
+
+    pub fn set_entry(&mut self, key: &str, e: Option<Entry>) {
+        let ks = self.index.entry(key.to_string()).or_default();
+        ks.bucket_exists = true;
+        ks.entry = e;
+        self.index_dir = true;
+    }
+
     fn step_write(&mut self, ctx: &Ctx, s: &WriteSpec, out: &Out, t0: u128, t1: u128) -> Result<(), String> {
         let data = ctx.blob(s.blob);
         let opts = s.entry == WEntry::Opts;
